@@ -406,3 +406,43 @@ pub fn checksum_window_slice(frame: &CorpusFrame, top: u8, via_scanner: bool) ->
     }
     (done, None)
 }
+
+/// Every burst of span <= 24 ANYWHERE in payload + checksum of a short frame: window start
+/// `start_bit` (>= 24), all 2^23 patterns of 24 bits whose first bit is set (each burst is counted
+/// at the window where it starts). Framer only. Returns the first accepted pattern as a trace.
+pub fn sliding_window_slice(frame: &CorpusFrame, start_bit: usize) -> (u64, Option<StreamTrace>) {
+    use rtcm_rs::prelude::*;
+    let n = frame.bytes.len();
+    let nbits = n * 8;
+    let mut buf = frame.bytes.clone();
+    let mut done = 0u64;
+    let width = 24.min(nbits - start_bit);
+    if width == 0 {
+        return (0, None);
+    }
+    let top = 1u32 << (width - 1);
+    for low in 0..top {
+        let pat = top | low; // first bit of the window is flipped
+        buf.copy_from_slice(&frame.bytes);
+        for k in 0..width {
+            if (pat >> (width - 1 - k)) & 1 == 1 {
+                let b = start_bit + k;
+                buf[b / 8] ^= 0x80 >> (b % 8);
+            }
+        }
+        done += 1;
+        let rejected = matches!(std::panic::catch_unwind(std::panic::AssertUnwindSafe(|| MessageFrame::new(&buf).map(|_| ()))), Ok(Err(RtcmError::NotValid)));
+        if !rejected {
+            let bits: Vec<u32> = (0..width).filter(|k| (pat >> (width - 1 - k)) & 1 == 1).map(|k| (start_bit + k) as u32).collect();
+            let class = if bits.len() == 1 { "flip1" } else { "burst" };
+            let mut p = piece(&format!("{}+{}", frame.label, class), "lib", buf.clone(), false);
+            assert!(c04_pattern_ok(class, &bits, n));
+            p.c04 = Some((class.to_string(), bits));
+            let mut t = build(Prop::C04, "sliding_window", vec![p, piece(&frame.label, "lib", frame.bytes.clone(), true)], vec![], vec![], 1, "one_shot");
+            t.origin = format!("sweep:c04:sliding_window:{}:{}:{:06x}", frame.label, start_bit, pat);
+            t.run = ((start_bit as u64) << 24) | pat as u64;
+            return (done, Some(t));
+        }
+    }
+    (done, None)
+}
